@@ -201,7 +201,7 @@ def rand_case(rng, nested=False):
         if cand:
             grow = {"at": rng.choice(cand), "dep": rand_dep(rng, ids), "render_first": rng.random() < 0.5}
     return {"shape": shape, "content": content, "json_mode": rng.random() < 0.1, "prior_document": rng.choice([0, 0, 0, 1, 2]), "grow": grow, "refused_append": rng.random() < 0.2, "late": late_pair + late_sibs + [rand_body_node(rng, ids, 1) for _ in range(n_late)], "kw": kw,
-            "lib_prefix": rng.choice(["lib", "lib", None, "", "a/b", "/", "//", "lib/", "/static", "//cdn.example/x", ".", "../up", "with space"]), "include_version": rng.random() < 0.7, "late_together": rng.random() < 0.5}
+            "lib_prefix": rng.choice(["lib", "lib", None, "", "a/b", "/", "//", "lib/", "/static", "//cdn.example/x", ".", "../up", "with space", "https://cdn.example.com/assets/lib", "http://h/", "a//b", "file:///srv/lib"]), "include_version": rng.random() < 0.7, "late_together": rng.random() < 0.5}
 
 
 def has_nested_dep(case):
@@ -392,6 +392,44 @@ def check_saved_then_rendered(ctx, rng, scratch_dir):
     return True
 
 
+class _KeepsItsPage:
+    """A component whose tagify() hands out the complete <html> element it keeps."""
+
+    def __init__(self, page):
+        self.page = page
+
+    def tagify(self):
+        return self.page
+
+
+def check_kept_html_root(ctx, rng):
+    """The document's root comes out of an object's tagify(), which keeps it: every rendering is assembled afresh - one <head>
+    starting with one charset line, one listing, each dependency's markup once - however often (and in however many documents)
+    the object is rendered."""
+    dep = ht.HTMLDependency("kept", "1.0", source={"subdir": "libdir"}, script={"src": "kept.js"})
+    head_first = rng.random() < 0.5
+    head = ht.tags.head(ht.tags.title("kept page"), ht.HTMLDependency("in-head", "2.0", source={"href": "https://cdn.example/h"}, stylesheet={"href": "h.css"}) if rng.random() < 0.5 else None)
+    body = ht.tags.body("b", dep)
+    page = ht.tags.html(head, body, lang="fr") if head_first else ht.tags.html(body, head)
+    w = _KeepsItsPage(page)
+    kw = rng.choice([{}, {"lang": "de"}, {"class_": "k"}])
+    docs = [ht.HTMLDocument(w, **kw), ht.HTMLDocument(ht.TagList(w)), ht.HTMLDocument(w, **kw)]
+    outs = []
+    for d_ in docs:
+        outs.append(d_.render()["html"])
+        outs.append(d_.render(lib_prefix="other")["html"])
+    ctx.count("oracle.kept_html_root")
+    for i_, out in enumerate(outs):
+        if out.count('<meta charset="utf-8"/>') != 1 or out.count("application/html-dependencies") != 1 or out.count("kept.js") != 1 or out.count("<head>") != 1 or out.count("<title>kept page</title>") != 1:
+            ctx.violation("head-count", "rendering #%d of documents whose root is an <html> element kept by a component: charset / listing / dependency markup not exactly once" % (i_ + 1),
+                          {"scenario": "kept html root", "output": out[:900]})
+            return False
+    if outs[0] != outs[4] or outs[1] != outs[5]:
+        ctx.violation("head-count", "the same document construction over a kept <html> element renders differently the second time", {"scenario": "kept html root", "first": outs[0][:600], "later": outs[4][:600]})
+        return False
+    return True
+
+
 def _find_mark(case, d):
     mark = d.get("_mark")
     if mark is None:
@@ -498,6 +536,7 @@ def run(ctx):
     try:
         for _ in range(ctx.budget(12, 1200)):
             ctx.guard(check_saved_then_rendered, ctx, rng, scratch_dir, witness={"scenario": "saved then rendered"})
+            ctx.guard(check_kept_html_root, ctx, rng, witness={"scenario": "kept html root"})
     finally:
         shutil.rmtree(scratch_dir, ignore_errors=True)
     # separate input class: a dependency nested inside another dependency's head (known finding F6)
